@@ -69,7 +69,8 @@ def struct_source(d):
     """Go source of a farm struct, for failing-input reports"""
     lines = ["type %s struct {" % d["name"], "\tgerror.GError"]
     for f in d["fields"]:
-        lines.append("\t%s %s%s" % (f["name"], f["type"], (" `%s`" % f["tag"]) if f["tag"] else ""))
+        decl = f["type"] if f.get("embedded") else "%s %s" % (f["name"], f["type"])
+        lines.append("\t%s%s" % (decl, (" `%s`" % f["tag"]) if f["tag"] else ""))
     lines.append("}" + ("   // generated with -skipConvertGen" if d.get("skip") else ""))
     return "\n".join(lines)
 
@@ -195,12 +196,11 @@ def desc_ties(ctx, farm):
             if rc != 0:
                 broken.append(("Error()/toPrimaryType generated for struct %s are not of a translatable shape" % t, txt))
                 continue
-            fields = farm["defs"][t].get("fields") or []
-            fl = "; ".join("mkF %s %s %s [%s] [] []" % (gal_str(f["name"]), "true" if f["tagged"] else "false", gal_str(f["tagname"]),
-                                                     "; ".join(gal_str(o) for o in (f.get("opts") or []))) for f in fields)
-            parts.append(txt + "Definition fields_%s : list xfield := [%s].\n" % (t, fl) +
-                         "Lemma tie_desc_%s : desc_eqb gen_error_desc_%s (expected_desc fields_%s) = true\n"
-                         "  /\\ names_eqb gen_primary_%s (expected_primary fields_%s) = true.\n"
+            # expected lists are computed from src_fields_T = the struct DEFINITION as the translator reads it from
+            # the farm source (named and anonymous fields, parsed gerror tags), not from the generated code
+            parts.append(txt +
+                         "Lemma tie_desc_%s : desc_eqb gen_error_desc_%s (expected_desc src_fields_%s) = true\n"
+                         "  /\\ names_eqb gen_primary_%s (expected_primary src_fields_%s) = true.\n"
                          "Proof. vm_compute. split; reflexivity. Qed.\n" % (t, t, t, t, t))
             n += 1
     v = ("From Coq Require Import NArith List Bool.\nImport ListNotations.\n"
@@ -282,7 +282,7 @@ def judge_and_report(ctx, rp, binp, terms, jsons, quick, tag, seen, only_v1=Fals
             rep = {"case": j,
                    "verdict": "generated method's result differs from the base method's, or clone/print law violated",
                    "replay_cmd": "./check C09 --replay <this file>"}
-            if rp.failing(rep, features(j, code)) == "violation" and j["type"][0] in "GKOHR":
+            if rp.failing(rep, features(j, code)) == "violation" and j["type"][0] in "GKOHRE":
                 # only replayable on farms that contain the struct: keep fixed-farm structs only
                 gl.write_corpus_hit("C09", {k: j[k] for k in ("type", "name", "msg", "src", "steps")})
         elif not only_v1 and len(rp.pending) < 8:
